@@ -248,7 +248,8 @@ class XMLReader(object):
                               warnings attribute after parsing is done.
         :param filename: Path to an odml file.
         """
-        self.parser = ET.XMLParser(remove_comments=True)
+        # Processing instructions are, like comments, no part of the odML content.
+        self.parser = ET.XMLParser(remove_comments=True, remove_pis=True)
         self.tags = dict([(obj.name, obj) for obj in ofmt.__all__])
         self.ignore_errors = ignore_errors
         self.show_warnings = show_warnings
